@@ -254,7 +254,15 @@ def check_deferred_walk(ctx):
         ctx.check(not any(x in r for x in bounded), inst, "FORBID", b.path, "the chain walk is not cut short by an iteration bound", None)
 
 
+def check_key_bounds(ctx):
+    """a key that is accepted must be recoverable on the device's own format, or the disk tier forgets what the memory tier
+    acknowledged: the validation bounds and their version gate (shared with C10.bounds)"""
+    from rules import C10
+    C10.check_bounds(ctx, "C01.validate/bounds")
+
+
 def check(ctx):
+    check_key_bounds(ctx)
     check_deferred_walk(ctx)
     check_gate(ctx)
     check_validate(ctx)
